@@ -320,7 +320,12 @@ class ExprMixin:
         vals = [first]
         for sub in e.values[1:]:
             guard = acc if is_and else z3.Not(acc)
-            v = self.eval_pure(lambda sub=sub: self.eval(sub), guard=guard)
+            try:
+                v = self.eval_pure(lambda sub=sub: self.eval(sub), guard=guard)
+            except PathEnd:
+                # the operand cannot be reached on this path (its guard is infeasible here, e.g. `x is not None and x.f`
+                # with x None): the value so far decides - the *path* goes on, only the operand is skipped
+                continue
             vals.append(v)
             allbool = allbool and isinstance(v, VBool)
             t = self.truth(v)
@@ -346,8 +351,14 @@ class ExprMixin:
                 for part in (e.body, e.orelse) for n in ast.walk(part)):
             # a branch that builds a container has a heap effect: fork instead of merging
             return self.eval(e.body) if self.branch(c) else self.eval(e.orelse)
-        a = self.eval_pure(lambda: self.eval(e.body), guard=c)
-        b = self.eval_pure(lambda: self.eval(e.orelse), guard=z3.Not(c))
+        try:
+            a = self.eval_pure(lambda: self.eval(e.body), guard=c)
+        except PathEnd:
+            return self.eval(e.orelse)           # the condition cannot hold on this path
+        try:
+            b = self.eval_pure(lambda: self.eval(e.orelse), guard=z3.Not(c))
+        except PathEnd:
+            return a
         return self.merge([(c, a), (z3.Not(c), b)])
 
     def e_Compare(self, e):
@@ -357,7 +368,10 @@ class ExprMixin:
             if acc is None:
                 right = self.eval(right_e)
             else:
-                right = self.eval_pure(lambda r=right_e: self.eval(r), guard=acc)
+                try:
+                    right = self.eval_pure(lambda r=right_e: self.eval(r), guard=acc)
+                except PathEnd:
+                    break                        # the chain is already false on this path
             t = self.compare(op, left, right)
             acc = t if acc is None else z3.And(acc, t)
             left = right
